@@ -106,7 +106,7 @@ def text_of(w, g, k=0):
 
 class Cfg:
     def __init__(self, name, writers, reads, presize=None, reader="process", sequential=False, family=None,
-                 after_flush=(), required=(), parent_ids=(), after_flush_by="parent"):
+                 after_flush=(), required=(), parent_ids=(), after_flush_by="parent", open_before_fork=False):
         self.name = name
         self.writers = [list(w) for w in writers]     # per writer: ids to store, in order
         self.reads = list(reads)                      # ids the reader asks for, in order
@@ -117,13 +117,14 @@ class Cfg:
         self.after_flush = list(after_flush)          # ids the parent stores after close()+flush()
         self.parent_ids = list(parent_ids)            # ids the parent itself stores first (then closes)
         self.after_flush_by = after_flush_by          # parent | process: who stores after the flush (the parent then only reads)
+        self.open_before_fork = open_before_fork      # the parent opens the storage for writing, THEN the writers are forked
         self.required = list(required)
         self.workers = len(self.writers)
 
     def describe(self):
         return {"name": self.name, "writers": self.writers, "reads": self.reads, "presize": self.presize,
                 "reader": self.reader, "sequential": self.sequential, "after_flush": self.after_flush, "parent_ids": self.parent_ids,
-                "after_flush_by": self.after_flush_by}
+                "after_flush_by": self.after_flush_by, "open_before_fork": self.open_before_fork}
 
 
 def make_driver(cfg):
@@ -182,6 +183,8 @@ def make_driver(cfg):
                     st[g] = text_of("P", g)
                     log.add("P", "store-ok", (g, text_of("P", g)))
                 st.close()
+            if cfg.open_before_fork:
+                st.open()       # all writers inherit this one open file (shared offset), like `with storage:` around a pool
             ws = [Writer(st, i, ids) for i, ids in enumerate(cfg.writers)]
             rd = Reader(st) if cfg.reader == "process" and cfg.reads else None
             if cfg.sequential:
@@ -205,6 +208,8 @@ def make_driver(cfg):
                     w.join()
                 if rd is not None:
                     rd.join()
+            if cfg.open_before_fork:
+                st.close()
             st.reader_only = True
             with st:
                 out["quiescent"] = observe_all(st)
@@ -443,6 +448,8 @@ def plan_for(tier):
     plan.append((Cfg("Spar[P:0|[1]]", [[1]], [0, 1], sequential=True, parent_ids=[0], after_flush=[0]), 0, 0, None))
     plan.append((Cfg("Sround2[[0,1]|A:1,0]", [[0, 1]], [0, 1], sequential=True, after_flush=[1, 0], after_flush_by="process"), 0, 0, None))
     plan.append((Cfg("Sround2[[1],[0]|A:0,2]", [[1], [0]], [0, 1], sequential=True, after_flush=[0, 2], after_flush_by="process"), 0, 0, None))
+    plan.append((Cfg("Kshared[open before fork|w0:0,2|w1:1|R]", [[0, 2], [1]], [1, 0, 2], open_before_fork=True), b, 0, None))
+    plan.append((Cfg("Sshared[open before fork|[1,0],[2]]", [[1, 0], [2]], [0, 1, 2], sequential=True, open_before_fork=True), 0, 0, None))
     plan.append((Cfg("Kround2[w0:0|w1:1|R|A:0,1]", [[0], [1]], [0, 1], after_flush=[0, 1], after_flush_by="process"), b, 0, None))
     plan.append((Cfg("Spar[P:1,0|[]]", [], [0, 1], sequential=True, parent_ids=[1, 0], after_flush=[1]), 0, 0, None))
     plan.append((Cfg("Kpar[P:0|w0:1|R]", [[1]], [0, 1, 0], parent_ids=[0], after_flush=[0]), b, 0, None))
@@ -464,7 +471,8 @@ def replay(rec):
     rp = rec["replay"]
     c = rp["config"]
     cfg = Cfg(c["name"], c["writers"], c["reads"], c["presize"], c["reader"], c["sequential"], after_flush=c["after_flush"],
-              parent_ids=c.get("parent_ids", ()), after_flush_by=c.get("after_flush_by", "parent"))
+              parent_ids=c.get("parent_ids", ()), after_flush_by=c.get("after_flush_by", "parent"),
+              open_before_fork=c.get("open_before_fork", False))
     from mc.par import pin_self
     pin_self()
     racy = {(tuple(a), b) for a, b in rp["racy"]}
